@@ -100,7 +100,7 @@ def run(chk, build):
         rn = RN6 if g.r.random() < 0.4 else RN3
         dkf = g.r.choice([None, None, ["a"], ["items", "x"]])
         dkr = g.r.choice([None, None, ["^[ab]$"], [r"^\w$", "^id$"]])
-        inputs.append((g.samples(), rn, dkr, dkf))
+        inputs.append((g.literal_heavy() if i % 20 == 3 else g.samples(), rn, dkr, dkf))
     terms = []
     oracle_failed = False
     for s, rn, dkr, dkf in inputs:
@@ -128,7 +128,7 @@ def run(chk, build):
     from json_to_models.registry import ModelRegistry
     gr = gen.Gen(chk.seed * 1000003 + 88)
     for i in range(300 if tier == "quick" else 10000):
-        s = gr.samples(depth=4, nmax=4)
+        s = gr.literal_heavy() if i % 15 == 4 else gr.samples(depth=4, nmax=4)
         spec = gr.r.choice([None, [("exact",)], [("percent", 0.5)], [("number", 2)], [("number", 1)], [("percent", 0.7), ("number", 3)]])
         sreg = impl.make_registry(RN3)
         G = MetadataGenerator(sreg)
